@@ -72,6 +72,7 @@ def run(idx: Index, rep: Report, tier: str):
     check_gate_equality(idx, rep, sets)
     check_pass_semantics(idx, rep, tier)
     check_simplify(idx, rep)
+    check_trim_relabelling(idx, rep)
     check_clifford_angles(idx, rep)
     rep.stats.update({"alias_" + k: v for k, v in an.stats.items()})
 
@@ -657,6 +658,57 @@ def check_simplify(idx: Index, rep: Report):
                            what="the simplified circuit has the action of the input up to a phase and up to the caller's threshold per dropped gate; the function form leaves its input alone",
                            reason=f"result {sig(out)} differs from the input by {d:.3g} (allowed {1e-9 + dropped * thr:.3g})" if d > 1e-9 + dropped * thr else "the input circuit was modified")
     rep.floor("simplify folds (circuits x thresholds x forms)", n, 30)
+
+
+def check_trim_relabelling(idx: Index, rep: Report):
+    """trim_qubits removes the unused qubit indices: the circuit keeps its action when qubit q is renamed to the number of used qubits below q (increasing
+    order - the order trim_trivial_operator(reindex=True) uses for the operator that goes with the circuit).  Folded with the repository's own Circuit and
+    Gate classes on circuits with gaps, with and without a fixed number of qubits; the folder iterates sets in decreasing order, so a relabelling taken from
+    the iteration order of the index set shows up as a permuted circuit."""
+    import math
+    from ..consteval import FuncVal
+    from ..rules.circuitsem import make_folder, module_resolver
+    rule = "K12.relabelling-order"
+    Circ = module_resolver(idx, CIRCUIT)("Circuit")
+    GateCls = module_resolver(idx, GATE)("Gate")
+    if Circ is None or GateCls is None:
+        raise AnalysisError("Circuit / Gate classes not resolvable")
+    f = idx.function(f"{CIRCUIT}::Circuit.trim_qubits")
+
+    def folder():
+        fo = make_folder(idx, CIRCUIT, ctors={"Gate": None})
+        fo.env["np.pi"] = math.pi
+        fo.env["pi"] = math.pi
+        return fo
+
+    def G(name, target, control=None, parameter=""):
+        fo = make_folder(idx, GATE, ctors={"Gate": None})
+        fo.env["pi"] = math.pi
+        return fo.instantiate(GateCls, [name, target], {"control": control, "parameter": parameter, "is_variational": False})
+    specs = [([("H", 1), ("CNOT", 8, 1), ("RZ", 8, None, 0.3)], None), ([("X", 9), ("CNOT", 1, 3), ("RY", 3, None, 0.2), ("CZ", 9, 1)], None),
+             ([("H", 2), ("CNOT", 5, 2)], 8), ([("CNOT", 12, 4), ("H", 7), ("SWAP", (7, 4))], None), ([("X", 0), ("X", 1)], None)]
+    n = 0
+    for spec, nq in specs:
+        gates = [G(*g) for g in spec]
+        c = folder().instantiate(Circ, [gates], {"n_qubits": nq})
+        used = sorted({q for g in gates for q in list(g.fields["target"]) + list(g.fields["control"] or [])})
+        rank = {q: i for i, q in enumerate(used)}
+        want = [(g.fields["name"], tuple(rank[q] for q in g.fields["target"]), tuple(rank[q] for q in (g.fields["control"] or []))) for g in gates]
+        try:
+            cv = c.cls_val
+            folder().call_funcval(FuncVal(cv.methods["trim_qubits"], bound_self=c, home=cv.method_home.get("trim_qubits", cv.home)), [], {})
+        except Undecidable as e:
+            raise AnalysisError(f"trim_qubits not foldable: {e}")
+        except Raised as e:
+            rep.violation(rule, f, f.node, text=f"trim_qubits on qubits {used}", what="trimming applies to every circuit", reason=f"raises {e.exc_type}")
+            continue
+        got = [(g.fields["name"], tuple(g.fields["target"]), tuple(g.fields["control"] or [])) for g in c.fields["_gates"]]
+        n += 1
+        rep.decide(got == want, rule, f, f.node, text=f"trim_qubits: used qubits {used}{' of a fixed ' + str(nq) + '-qubit register' if nq else ''} renamed to 0..{len(used) - 1} in increasing order",
+                   what="trimming renames the used qubits to 0, 1, ... in increasing order of their index (the circuit keeps its action on the corresponding qubits, and stays "
+                        "aligned with an operator trimmed alongside it)",
+                   reason=f"gates after trimming {got}, expected {want}")
+    rep.floor("trim_qubits relabellings folded", n, 5)
 
 
 # ---------------------------------------------------------------------------------------------------
